@@ -68,7 +68,7 @@ def selftests(pid, live, rej, sc):
     return tracecheck.selftest("Trace_DataGen", TRACE_CFG % pid, out, sc, "st" + pid)
 
 
-def run(pid, tier, seed, *, mc, cfgs, assumptions, level="model_checking", rule=""):
+def run(pid, tier, seed, *, mc, cfgs, assumptions, level="model_checking", rule="", extra_leg=None):
     """mc: list of dict(module, cfg, tag, expect='pass' | ('fail', needle), workers)"""
     t0 = time.time()
     sc = core.Scratch(pid)
@@ -102,6 +102,10 @@ def run(pid, tier, seed, *, mc, cfgs, assumptions, level="model_checking", rule=
             viol.append(dict(clause=r["clause"], sig=sig_of(t["cfg"], r["clause"]), detail=f"event {r['ev']}" +
                              (f" exc={t['exc']}" if t.get("exc") else ""), driver="harness.drv_datagen:run_case",
                              cfg=t["cfg"], record=t))
+        leg_stats = {}
+        if extra_leg is not None:
+            v2, leg_stats = extra_leg(tier, seed)
+            viol += v2
         rc, n_new, n_known = core.report(pid, viol)
         nself = selftests(pid, live, rej, sc)
         events = sum(len(t["ev"]) for t in live)
@@ -129,7 +133,7 @@ def run(pid, tier, seed, *, mc, cfgs, assumptions, level="model_checking", rule=
             traces_by_kind=kinds,
             known_finding_hits=n_known,
             binding_selftests_rejected=nself,
-            rule=rule,
+            rule=rule, **leg_stats,
         )
         core.write_evidence(pid, tier, seed, level, cov, assumptions, time.time() - t0, n_new)
         print(f"{pid} [{tier}] MC states={states} traces={len(live)} accepted={acc} rejected={len(rej)} "
